@@ -44,8 +44,36 @@ fn pick<'a>(rng: &mut Rng, pool: &[&'a str]) -> &'a str {
     pool.choose(rng).copied().unwrap_or("")
 }
 
-/// geometric-ish length in [0, max]
+thread_local! {
+    static SCALE: std::cell::Cell<usize> = const { std::cell::Cell::new(1) };
+}
+
+/// Size multiplier of the current case: 1 everywhere except in the `large` lanes, where
+/// `core::gen_case` sets it per case (10, 50 or 250) so that every length drawn through the helpers of
+/// this module (and through `sc`) is that many times bigger.
+pub fn set_scale(k: usize) {
+    SCALE.with(|s| s.set(k.max(1)));
+}
+pub fn scale() -> usize {
+    SCALE.with(|s| s.get())
+}
+/// `n` times the size multiplier of the current case
+pub fn sc(n: usize) -> usize {
+    n.saturating_mul(scale())
+}
+
+/// run `f` with the size multiplier replaced by `k`
+pub fn with_scale<T>(k: usize, f: impl FnOnce() -> T) -> T {
+    let old = scale();
+    set_scale(k);
+    let r = f();
+    set_scale(old);
+    r
+}
+
+/// geometric-ish length in [0, max] (both scaled in the `large` lanes)
 pub fn len_geo(rng: &mut Rng, mean: f64, max: usize) -> usize {
+    let (mean, max) = (mean * scale() as f64, sc(max));
     let p = 1.0 / (mean + 1.0);
     let mut n = 0;
     while n < max && rng.random::<f64>() > p {
@@ -177,8 +205,17 @@ pub fn word(rng: &mut Rng, max_chars: usize) -> String {
 /// whitespace-clean text: words joined by single U+0020, no leading/trailing whitespace;
 /// in grapheme mode additionally no cluster mixes whitespace and non-whitespace
 pub fn clean_text(rng: &mut Rng, max_words: usize, graphemes: bool) -> String {
-    let n = len_geo(rng, 4.0, max_words);
-    let mut words: Vec<String> = (0..n).map(|_| word(rng, 8)).collect();
+    // `large` lanes: many words of ordinary length or few very long words, not both
+    let k = scale();
+    let (nscale, wscale) = if k == 1 {
+        (1, 1)
+    } else if rng.random_bool(0.7) {
+        (k, 1)
+    } else {
+        (1, k)
+    };
+    let n = with_scale(nscale, || len_geo(rng, 4.0, max_words));
+    let mut words: Vec<String> = with_scale(wscale, || (0..n).map(|_| word(rng, 8)).collect());
     if graphemes {
         // a word that starts with a combining mark / ZWJ / etc. would form a cluster with the
         // preceding space: prefix such words with a letter
@@ -204,7 +241,7 @@ pub fn clean_text(rng: &mut Rng, max_words: usize, graphemes: bool) -> String {
 
 /// plain words over a small ascii alphabet (for metrics and LCS workloads)
 pub fn ascii_word(rng: &mut Rng, alphabet: &[char], max_len: usize) -> String {
-    let n = rng.random_range(1..=max_len.max(1));
+    let n = rng.random_range(1..=sc(max_len.max(1)));
     (0..n)
         .map(|_| *alphabet.choose(rng).unwrap_or(&'a'))
         .collect()
